@@ -18,6 +18,7 @@ Projects == {p \in [schema : Seqs(SUBSET SchemaFaults, 1, MaxSchema), ops : Seqs
                /\ ("runtime" \in p.gen => p.gen \subseteq {"runtime", "resolvers"})
                /\ ("runtimeDts" \in p.gen => (p.gen \subseteq {"runtimeDts", "resolvers"} /\ FaultCount(p) = 0))}
 MCInit == PInit(Projects)
+MCLiveSpec == PLiveSpec(Projects)
 (* spec -> impl: one case per project, with every terminal outcome the model allows left to the trace spec *)
 Emit == (Emitting /\ stage = "loadSchema") =>
           PrintT(<<"CASE", ToJson([schema |-> [i \in DOMAIN P.schema |-> SetToSeq(P.schema[i])],
